@@ -17,11 +17,12 @@ static struct { uint8_t *p; int pg; } ptrs[MAXP]; static size_t nptrs;   /* ever
 static struct { uint8_t *p; size_t n; int pg; } shadow[MAXP]; static size_t nshadow;
 static size_t pat_counter;
 static size_t first_size;
+static int libc_pool;   /* built by cc_dynamic_pool_new: pages come from libc and are not pre-filled */
 
 static void *fill_malloc(size_t n) { void *p = conf_malloc(n); if (p) memset(p, FRESH, n); return p; }
 static void *fill_calloc(size_t a, size_t b) { return conf_calloc(a, b); }
 
-static void shim_reset(void) { pool = NULL; nptrs = nshadow = 0; pat_counter = 0; }
+static void shim_reset(void) { pool = NULL; nptrs = nshadow = 0; pat_counter = 0; libc_pool = 0; }
 
 /* pages oldest first */
 static int page_list(PageInfo **out) {
@@ -52,7 +53,7 @@ static void phys(void) {
       pool->alignment_boundary, pool->top_page_size, (size_t)(pool->free_ptr - pool->low_ptr),
       (size_t)(pool->high_ptr - pool->low_ptr));
     O_LIST("sizes"); for (int i = 0; i < n; i++) o_item(pg[i]->size); o_end();
-    if (!default_mode)
+    if (!libc_pool)
         for (int i = 0; i < n; i++) {
             o(" "); char nm[24]; snprintf(nm, sizeof nm, "pg%d", i);
             O_LIST(nm); for (size_t j = 0; j < pg[i]->size; j++) o_item(payload(pg[i])[j]); o_end();
@@ -74,6 +75,8 @@ static void phys(void) {
             (size_t)(shadow[i].p - payload(pg[shadow[i].pg])) % pool->alignment_boundary) o(" WALK=block-misaligned");
     }
     if (pool->is_fixed && n != 1) o(" WALK=fixed-pool-grew");
+    if (sizeof(PageInfo) != 16) o(" WALK=pageinfo-size-%zu", sizeof(PageInfo));
+    for (int i = 0; i < n; i++) if (pg[i]->size > (size_t)-1 - sizeof(PageInfo)) o(" WALK=page-size-wraps");
 }
 static void handed_out(uint8_t *p, size_t n, size_t used_before, size_t pages_before) {
     size_t off = 0; int pgi = p ? page_of(p, &off) : -1;
@@ -104,7 +107,7 @@ static void do_op(Cmd *c) {
             if (kv_str(c, "exp", NULL)) conf.exp_factor = strtof(kv_str(c, "exp", "1"), NULL);
             conf.mem_alloc = fill_malloc; conf.mem_calloc = fill_calloc; conf.mem_free = conf_free;
             st = cc_dynamic_pool_new_conf(size, &conf, &pool);
-        } else { default_mode = 1; st = cc_dynamic_pool_new(size, &pool); }
+        } else { libc_pool = 1; st = cc_dynamic_pool_new(size, &pool); }
         if (st != CC_OK) pool = NULL;
         first_size = size;
         o_stat(st);
